@@ -591,11 +591,16 @@ Proof.
   - apply Forall_forall. intros e He. apply in_map_iff in He. destruct He as (d & E & _). eauto.
 Qed.
 
-(* every call made inside a factory targets a function: type_map.<native>, RTMA.SDF.<struct>, RTMA.MDF.<message> *)
+(* every call made inside a factory targets a function: type_map.<native>, RTMA.aliases.<alias of a native>
+   (bound to type_map.<native>), RTMA.SDF.<struct>, RTMA.MDF.<message> *)
+Definition js_has (k : string) : bool := match tlookup k js_types with Some _ => true | None => false end.
 Definition js_callee_ok (st : pstate) (c : jcallee) : bool :=
   match c with
-  | JTypeMap k => match tlookup k js_types with Some _ => true | None => false end
-  | JAliasV _ => false
+  | JTypeMap k => js_has k
+  | JAliasV n => match find_alias n (ps_aliases st) with
+                 | Some a => match pa_target a with ANat k => js_has k | AStruct _ => false end
+                 | None => false
+                 end
   | JSdf n => match find_def n (ps_structs st) with Some _ => true | None => false end
   | JMdf n => match find_def n (ps_msgs st) with Some _ => true | None => false end
   end.
@@ -604,8 +609,9 @@ Definition js_form_ok (st : pstate) (f : jform) : bool :=
 Definition js_calls_ok (st : pstate) : bool :=
   forallb (fun d => forallb (fun p => js_form_ok st (js_form p)) (pd_fields d)) (all_defs st).
 
+(* the native keys a field reaches have a JavaScript default value *)
 Definition field_js_native (p : pfield) : bool :=
-  match pf_kind p with FNat => match tlookup (pf_ty p) js_types with Some _ => true | None => false end | _ => true end.
+  match pf_kind p with FNat => js_has (pf_ty p) | FAlias (ANat k) => js_has k | _ => true end.
 Definition js_natives_known (st : pstate) : bool := forallb (fun d => forallb field_js_native (pd_fields d)) (all_defs st).
 
 Lemma in_names_find n l : In n (names l) -> exists d, find_def n l = Some d.
@@ -614,15 +620,17 @@ Proof.
   intros [H|H]; [apply String.eqb_neq in E; contradiction|auto].
 Qed.
 
-Theorem js_static_ok st : InvSt st -> no_alias_field st = true -> js_natives_known st = true -> js_calls_ok st = true.
+Theorem js_static_ok st : InvSt st -> no_alias_of_struct st = true -> js_natives_known st = true -> js_calls_ok st = true.
 Proof.
   intros [Hall _ _] Hna Hk. unfold js_calls_ok. apply forallb_forall. intros d Hd. apply forallb_forall. intros p Hp.
-  pose proof (forallb_defs_field _ _ _ _ Hna Hd Hp) as F1. pose proof (forallb_defs_field _ _ _ _ Hk Hd Hp) as F2.
-  pose proof (proj1 (Forall_forall _ _) (proj1 (Forall_forall _ _) Hall d Hd) p Hp) as (G1 & G2 & _ & _).
-  unfold field_not_alias in F1. unfold field_js_native in F2.
+  unfold no_alias_of_struct in Hna. apply andb_true_iff in Hna. destruct Hna as [_ Hfa].
+  pose proof (forallb_defs_field _ _ _ _ Hfa Hd Hp) as F1. pose proof (forallb_defs_field _ _ _ _ Hk Hd Hp) as F2.
+  pose proof (proj1 (Forall_forall _ _) (proj1 (Forall_forall _ _) Hall d Hd) p Hp) as (G1 & G2 & G3 & _).
+  unfold field_no_alias_struct in F1. unfold field_js_native in F2.
   assert (C : js_callee_ok st (js_callee p) = true).
-  { unfold js_callee. destruct (pf_kind p) eqn:K; simpl; try discriminate.
+  { unfold js_callee. destruct (pf_kind p) as [|[k|s0]| |] eqn:K; simpl; try discriminate.
     - exact F2.
+    - destruct (G3 _ K) as (a & Fa & Ta). rewrite Fa, Ta. exact F2.
     - destruct (in_names_find _ _ (G1 K)) as (d0 & E). rewrite E. reflexivity.
     - destruct (in_names_find _ _ (mnames_incl _ _ (G2 K))) as (d0 & E). rewrite E. reflexivity. }
   unfold js_form. destruct (pf_len p) as [n|]; simpl; [|exact C].
